@@ -122,6 +122,21 @@ def argsMirrorSite (cfg : Config) (h : Node) : Option String :=
   | .call (.member _ (.pname name _) _) (.arg none first :: rest) _ => argsMirrorFirst cfg name first rest
   | _ => some "hook-without-result-argument"
 
+/-- `f.apply(this, A)` calls `f` with the elements of `A`: a hook can list "the call arguments in
+    order" only element by element (array literal) or by spreading; `A` itself handed over as one
+    operand is not the argument list.  (Not part of `argsMirrorSite`: the rewriter never instruments
+    such a call, which is the known C04 finding `proto-apply/arguments-not-an-array-literal`.) -/
+def applyArgsListed (h : Node) : Bool :=
+  match h with
+  | .call _ (.arg none (.call (.member _ (.pname ca _) _) cargs _) :: _) _ =>
+    if ca == Generated.applyMethodName then
+      match callArgs cargs with
+      | this :: a :: _ =>
+        isSpreadArg this || isSpreadArg a || (match a with | .arg _ (.array ..) => true | _ => false)
+      | _ => true
+    else true
+  | _ => true
+
 /-- classes of all mismatching hook sites of a tree -/
 def argsMirror (cfg : Config) (out : Node) : List String :=
   (hooks out).filterMap (argsMirrorSite cfg)
